@@ -4,6 +4,9 @@
   fragment M1:
 
     atoms      NULL TRUE FALSE <int> <float> <string> <bytes> @param identifier path ( expr )
+               CASE [expr] WHEN expr THEN expr … [ELSE expr] END     IF ( expr , expr , expr )
+               [ expr , … ]   (array literal without ARRAY / element type)
+               CAST ( expr AS path )   the type is a NAMED type (no scalar type name, no ARRAY<…> / STRUCT<…>; no SAFE_CAST)
     prefix     + - ~ NOT
     binary     * / ||  + -  << >>  &  ^  |  = != <> < <= > >= LIKE NOT-LIKE  AND  OR
     postfix    IS [NOT] NULL|TRUE|FALSE   [NOT] BETWEEN x AND y   [NOT] IN (e, …)   [NOT] IN UNNEST(e)
@@ -26,6 +29,7 @@
 -/
 import MF.Model.Lexer
 import MF.Model.Quote
+import MF.Model.TypeParse
 namespace MF.Expr
 
 /-! ## token classes -/
@@ -41,7 +45,11 @@ inductive TK
   | like | in_ | between | is_ | not_ | and_ | or_ | unnest
   /-- SELECT: `lookaheadSubQuery` -/
   | select
-  /-- CASE IF CAST EXISTS EXTRACT WITH ARRAY STRUCT NEW `{`: `parseLit` enters a production outside the fragment -/
+  /-- CASE WHEN THEN ELSE END (`parseCaseExpr`), IF (`parseIfExpr`) -/
+  | case_ | when_ | then_ | else_ | end_ | if_
+  /-- CAST … AS (`parseCastExpr`) -/
+  | cast | as_
+  /-- EXISTS EXTRACT WITH ARRAY STRUCT NEW `{`: `parseLit` enters a production outside the fragment -/
   | litStart
   /-- any other kind (`parseLit` panics "unexpected token") -/
   | other
@@ -55,7 +63,8 @@ def symTable : List (String × TK) := [
   ("=", .eq), ("!=", .ne), ("<>", .ne), ("<", .lt), ("<=", .le), (">", .gt), (">=", .ge),
   ("LIKE", .like), ("IN", .in_), ("BETWEEN", .between), ("IS", .is_), ("NOT", .not_), ("AND", .and_), ("OR", .or_),
   ("UNNEST", .unnest), ("SELECT", .select),
-  ("CASE", .litStart), ("IF", .litStart), ("CAST", .litStart), ("EXISTS", .litStart), ("EXTRACT", .litStart),
+  ("CASE", .case_), ("WHEN", .when_), ("THEN", .then_), ("ELSE", .else_), ("END", .end_), ("IF", .if_),
+  ("CAST", .cast), ("AS", .as_), ("EXISTS", .litStart), ("EXTRACT", .litStart),
   ("WITH", .litStart), ("ARRAY", .litStart), ("STRUCT", .litStart), ("NEW", .litStart), ("{", .litStart)]
 
 def symTK (s : Bytes) : TK :=
@@ -122,9 +131,25 @@ inductive Expr
   /-- `IndexExpr`; `kw = none`: `ExprArg`; `kw = some (k, spelled)`: `SubscriptSpecifierKeyword` (`spelled` is the
   identifier as written, which the Go AST forgets: it keeps the canonical `k` only) -/
   | index (e : Expr) (kw : Option (PosKw × Bytes)) (i : Expr)
+  /-- `CaseExpr{Expr, Whens = CaseWhen{cond, then_} :: more, Else}` (at least one WHEN) -/
+  | caseE (operand : OExpr) (cond then_ : Expr) (more : Whens) (els : OExpr)
+  /-- `IfExpr{Expr, TrueResult, ElseResult}` -/
+  | ifE (c t e : Expr)
+  /-- `ArrayLiteral{Array: InvalidPos, Type: nil, Values}` (`parseSimpleArrayLiteral`) -/
+  | array (values : Exprs)
+  /-- `CastExpr{Safe: false, Expr, Type: NamedType{Path}}` -/
+  | cast (e : Expr) (typePath : List Bytes)
 inductive Exprs
   | nil
   | cons (e : Expr) (es : Exprs)
+/-- the further `CaseWhen`s of a `CaseExpr` -/
+inductive Whens
+  | nil
+  | cons (cond then_ : Expr) (ws : Whens)
+/-- an optional expression (`CaseExpr.Expr`; `CaseExpr.Else` is a `CaseElse{Expr}` or nil) -/
+inductive OExpr
+  | none
+  | some (e : Expr)
 end
 
 instance : Inhabited Expr := ⟨.null⟩
@@ -217,6 +242,27 @@ def isCastLike (t : Token) : Bool :=
 /-- identifiers that start a typed literal when a string follows -/
 def isTypedLitWord (t : Token) : Bool :=
   t.isKeywordLike (B "DATE") || t.isKeywordLike (B "TIMESTAMP") || t.isKeywordLike (B "NUMERIC") || t.isKeywordLike (B "JSON")
+
+/-- the entry of `simpleTypes` an identifier value reads as (`Token.IsIdent` is case-insensitive) -/
+def simpleNameOf (s : Bytes) : Option Bytes := TypeP.simpleTypes.find? (fun n => Char.equalFold s n)
+
+/-- `parseType` at the type of a CAST, through the type model `MF.TypeP.parseType` (MF/Model/TypeParse.lean), for the
+types of the fragment: a path (`NamedType`; returned are the names).  `ARRAY<…>` / `STRUCT<…>` are outside, and so
+is a scalar type name (`SimpleType`: an identifier reading BOOL … TOKENLIST and not followed by `.`): written with
+back quotes its `End()` = `NamePos + len(Name)` lies inside the token (the known C05 finding), and whether it is
+written with back quotes is not visible in what the theorems see of a token (`proj`), so the whole form is left out. -/
+def castType (f : Nat) (ts : List Token) : Res (List Bytes × List Token) :=
+  match TypeP.cur ts with
+  | .ident =>
+    if TypeP.lookaheadSimpleType ts then .outside
+    else
+      match TypeP.parseType f ts with
+      | .ok (.named path, rest) => .ok (path.map (·.name), rest)
+      | .ok (_, _) => .outside
+      | .raise => .raise
+      | .outOfFuel => .outOfFuel
+  | .array | .struct_ => .outside
+  | _ => .raise
 
 /-- `p.expect(kind)` followed by building a leaf -/
 def expectThen (k : TK) (ts : List Token) (mk : Token → Expr) : PR :=
@@ -515,8 +561,11 @@ def parseLit : Nat → List Token → PR
     | .string => parseStringLiteral ts
     | .bytes => parseBytesLiteral ts
     | .param => parseParam ts
+    | .case_ => parseCaseExpr f ts
+    | .if_ => parseIfExpr f ts
+    | .cast => parseCastExpr f ts
     | .litStart => .outside
-    | .lbrack => .outside        -- parseSimpleArrayLiteral
+    | .lbrack => parseSimpleArrayLiteral f ts
     | .lparen => parseParenExpr f ts
     | .ident => parseLitIdent ts
     | _ => .raise
@@ -531,6 +580,93 @@ def parseParenExpr : Nat → List Token → PR
         | .rparen => .ok (.paren p.1, p.2.tail)
         | .comma => .outside     -- TupleStructLiteral
         | _ => .raise
+
+/-- `parseSimpleArrayLiteral` = `parseArrayLiteralBody`: `p.expect("[")`; unless `]` follows:
+`for p.Token.Kind != token.TokenEOF { values = append(values, p.parseExpr()); if p.Token.Kind != "," { break }; p.nextToken() }`;
+`p.expect("]")`.  After the first element this is the loop of `parseInCondition` (`inListLoop`: at `<eof>` behind a
+comma both loops end in a syntax error, the one of `p.expect("]")`, the other of `parseLit`). -/
+def parseSimpleArrayLiteral : Nat → List Token → PR
+  | 0, _ => .outOfFuel
+  | f + 1, ts =>
+    if cur ts = .lbrack then
+      if cur ts.tail = .rbrack then .ok (.array .nil, ts.tail.tail)
+      else
+        (parseExpr f ts.tail).bind fun p =>
+          (inListLoop f p.2).bind fun q =>
+            if cur q.2 = .rbrack then .ok (.array (.cons p.1 q.1), q.2.tail) else .raise
+    else .raise
+
+/-- `parseCastExpr` for the keyword CAST (the pseudo keyword SAFE_CAST is an identifier on which `parseLitIdent`
+answers `outside`): `p.expect("CAST")`, `p.expect("(")`, `parseExpr`, `p.expect("AS")`, `parseType`, `p.expect(")")` -/
+def parseCastExpr : Nat → List Token → PR
+  | 0, _ => .outOfFuel
+  | f + 1, ts =>
+    if cur ts = .cast then
+      if cur ts.tail = .lparen then
+        (parseExpr f ts.tail.tail).bind fun p =>
+          if cur p.2 = .as_ then
+            (castType f p.2.tail).bind fun t =>
+              if cur t.2 = .rparen then .ok (.cast p.1 t.1, t.2.tail) else .raise
+          else .raise
+      else .raise
+    else .raise
+
+/-- `parseCaseExpr`: `p.expect("CASE")`, the operand unless WHEN follows, one `parseCaseWhen`, the loop
+`for p.Token.Kind != token.TokenEOF { if p.Token.Kind != "WHEN" { break }; … }`, `parseCaseElse` if ELSE follows,
+`p.expect("END")` -/
+def parseCaseExpr : Nat → List Token → PR
+  | 0, _ => .outOfFuel
+  | f + 1, ts =>
+    if cur ts = .case_ then
+      (if cur ts.tail = .when_ then .ok (OExpr.none, ts.tail)
+        else (parseExpr f ts.tail).bind fun p => .ok (OExpr.some p.1, p.2)).bind fun o =>
+      (parseCaseWhen f o.2).bind fun w =>
+      (caseWhenLoop f w.2).bind fun ws =>
+      (if cur ws.2 = .else_ then (parseCaseElse f ws.2).bind fun p => .ok (OExpr.some p.1, p.2)
+        else .ok (OExpr.none, ws.2)).bind fun el =>
+      if cur el.2 = .end_ then .ok (.caseE o.1 w.1.1 w.1.2 ws.1 el.1, el.2.tail) else .raise
+    else .raise
+
+/-- the loop of `parseCaseExpr` after the first WHEN clause; returns the appended clauses -/
+def caseWhenLoop : Nat → List Token → Res (Whens × List Token)
+  | 0, _ => .outOfFuel
+  | f + 1, ts =>
+    match cur ts with
+    | .when_ =>
+      (parseCaseWhen f ts).bind fun w =>
+        (caseWhenLoop f w.2).bind fun q => .ok (.cons w.1.1 w.1.2 q.1, q.2)
+    | _ => .ok (.nil, ts)
+
+/-- `parseCaseWhen`: `WHEN cond THEN then`; returns `(cond, then)` -/
+def parseCaseWhen : Nat → List Token → Res ((Expr × Expr) × List Token)
+  | 0, _ => .outOfFuel
+  | f + 1, ts =>
+    if cur ts = .when_ then
+      (parseExpr f ts.tail).bind fun c =>
+        if cur c.2 = .then_ then (parseExpr f c.2.tail).bind fun t => .ok ((c.1, t.1), t.2) else .raise
+    else .raise
+
+/-- `parseCaseElse`: `ELSE expr`; returns the expression -/
+def parseCaseElse : Nat → List Token → PR
+  | 0, _ => .outOfFuel
+  | f + 1, ts => if cur ts = .else_ then parseExpr f ts.tail else .raise
+
+/-- `parseIfExpr`: `IF ( expr , expr , expr )` -/
+def parseIfExpr : Nat → List Token → PR
+  | 0, _ => .outOfFuel
+  | f + 1, ts =>
+    if cur ts = .if_ then
+      if cur ts.tail = .lparen then
+        (parseExpr f ts.tail.tail).bind fun c =>
+          if cur c.2 = .comma then
+            (parseExpr f c.2.tail).bind fun t =>
+              if cur t.2 = .comma then
+                (parseExpr f t.2.tail).bind fun e =>
+                  if cur e.2 = .rparen then .ok (.ifE c.1 t.1 e.1, e.2.tail) else .raise
+              else .raise
+          else .raise
+      else .raise
+    else .raise
 
 end
 
@@ -547,11 +683,13 @@ An input is OUTSIDE (not compared) iff its token list contains a token outside t
 the configurations at which the Go parser could dispatch into a production outside the fragment.  Conservative. -/
 
 def operandEnd : TK → Bool
-  | .ident | .param | .int | .float | .string | .bytes | .null | .true_ | .false_ | .rparen | .rbrack => true
+  | .ident | .param | .int | .float | .string | .bytes | .null | .true_ | .false_ | .rparen | .rbrack | .end_ => true
   | _ => false
 
 /-- `prev` = class of the previous token (`.eof` at the start), `stack` = open brackets, `true` for the
-parenthesis of an IN list -/
+parenthesis of an IN list or of `IF(` and for the `[` of an array literal (where a `,` belongs to the production);
+a `[` behind the end of an operand is a subscript (`false`; only there may a position word be followed by `(`),
+any other `[` starts an array literal -/
 def outsideScan : TK → List Bool → List Token → Bool
   | _, _, [] => false
   | prev, stack, t :: ts =>
@@ -559,14 +697,14 @@ def outsideScan : TK → List Bool → List Token → Bool
     let next := cur ts
     if k == .other || k == .litStart || k == .select then true
     else if k == .ident && (isCastLike t
-        || (next == .lparen && !(prev == .lbrack && (posKwOf t).isSome))
+        || (next == .lparen && !(prev == .lbrack && stack.head? == some false && (posKwOf t).isSome))
         || (next == .string && isTypedLitWord t)) then true
-    else if k == .lbrack && !operandEnd prev then true
+    else if k == .ident && prev == .as_ && (simpleNameOf t.asString).isSome && next != .dot then true
     else if k == .comma && stack.head? != some true then true
     else
       let stack :=
-        if k == .lparen then (prev == .in_) :: stack
-        else if k == .lbrack then false :: stack
+        if k == .lparen then (prev == .in_ || prev == .if_) :: stack
+        else if k == .lbrack then (!operandEnd prev) :: stack
         else if k == .rparen || k == .rbrack then stack.tail
         else stack
       outsideScan k stack ts
@@ -668,10 +806,29 @@ def sqlE : Expr → Bytes
     parenS 1 e (sqlE e) ++ (if isIntLit e then B " " else []) ++ B "." ++ identSQL n
   | .index e none i => parenS 1 e (sqlE e) ++ B "[" ++ sqlE i ++ B "]"
   | .index e (some (k, _)) i => parenS 1 e (sqlE e) ++ B "[" ++ k.str ++ B "(" ++ sqlE i ++ B ")" ++ B "]"
+  -- "CASE " + sqlOpt("", c.Expr, " ") + sqlJoin(c.Whens, " ") + " " + sqlOpt("", c.Else, " ") + "END"
+  | .caseE o c t ws el =>
+    B "CASE " ++ sqlO [] o ++ (B "WHEN " ++ sqlE c ++ B " THEN " ++ sqlE t ++ sqlWs ws) ++ B " " ++ sqlO (B "ELSE ") el
+      ++ B "END"
+  | .ifE c t e => B "IF(" ++ sqlE c ++ B ", " ++ sqlE t ++ B ", " ++ sqlE e ++ B ")"
+  -- strOpt(!a.Array.Invalid(), "ARRAY") + sqlOpt("<", a.Type, ">") + "[" + sqlJoin(a.Values, ", ") + "]"
+  | .array .nil => B "[" ++ B "]"
+  | .array (.cons e es) => B "[" ++ sqlE e ++ sqlEs es ++ B "]"
+  -- strOpt(c.Safe, "SAFE_") + "CAST(" + c.Expr.SQL() + " AS " + c.Type.SQL() + ")"
+  | .cast e ns => B "CAST(" ++ sqlE e ++ B " AS " ++ joinBytes (B ".") (ns.map identSQL) ++ B ")"
 /-- the remaining elements of `sqlJoin(v.Exprs, ", ")` -/
 def sqlEs : Exprs → Bytes
   | .nil => []
   | .cons e es => B ", " ++ sqlE e ++ sqlEs es
+/-- the remaining elements of `sqlJoin(c.Whens, " ")`, each a `CaseWhen.SQL()` -/
+def sqlWs : Whens → Bytes
+  | .nil => []
+  | .cons c t ws => B " WHEN " ++ sqlE c ++ B " THEN " ++ sqlE t ++ sqlWs ws
+/-- `sqlOpt("", node, " ")` where the node prints `pre ++ expr.SQL()` (`pre` is empty for the operand, `ELSE ` for a
+`CaseElse`) -/
+def sqlO (pre : Bytes) : OExpr → Bytes
+  | .none => []
+  | .some e => pre ++ sqlE e ++ B " "
 end
 
 /-! ## s-expression dump for the EXPR line protocol (values in hex; positions omitted) -/
@@ -695,6 +852,7 @@ def bname (b : Bool) : String := if b then "true" else "false"
 mutual
 def sexp : Expr → String
   | .null => "null"
+  | .cast e ns => "(cast " ++ sexp e ++ " (named" ++ String.join (ns.map fun n => " " ++ hxs n) ++ "))"
   | .bool b => bname b
   | .int s raw => "(int " ++ hxs (signStr s ++ raw) ++ ")"
   | .float s raw => "(float " ++ hxs (signStr s ++ raw) ++ ")"
@@ -714,9 +872,19 @@ def sexp : Expr → String
   | .sel e n => "(sel " ++ sexp e ++ " " ++ hxs n ++ ")"
   | .index e none i => "(index " ++ sexp e ++ " (expr " ++ sexp i ++ "))"
   | .index e (some (k, _)) i => "(index " ++ sexp e ++ " (" ++ k.name ++ " " ++ sexp i ++ "))"
+  | .caseE o c t ws el =>
+    "(case " ++ sexpO o ++ " (when " ++ sexp c ++ " " ++ sexp t ++ ")" ++ sexpWs ws ++ " " ++ sexpO el ++ ")"
+  | .ifE c t e => "(if " ++ sexp c ++ " " ++ sexp t ++ " " ++ sexp e ++ ")"
+  | .array es => "(array" ++ sexps es ++ ")"
 def sexps : Exprs → String
   | .nil => ""
   | .cons e es => " " ++ sexp e ++ sexps es
+def sexpWs : Whens → String
+  | .nil => ""
+  | .cons c t ws => " (when " ++ sexp c ++ " " ++ sexp t ++ ")" ++ sexpWs ws
+def sexpO : OExpr → String
+  | .none => "-"
+  | .some e => sexp e
 end
 
 /-- the EXPR request: lex, apply the token-level OUTSIDE rule, parse -/
